@@ -44,6 +44,7 @@ func checkC07(w *World, r *Report) {
 	r.Rule("R07.9", "packets are retired only on a matching acknowledgement; the oldest is (re)sent first", 2)
 	r.Rule("R07.10", "a write succeeds only after its packets were acknowledged", 1)
 	r.Rule("R07.12", "the byte count of a write covers every chunk it queued", 1)
+	r.Rule("R07.16", "every lock-protected field of the tunnel's queues and connections is written under one and the same mutex everywhere", 3)
 	r.Rule("R07.15", "mutexes of the DNS tunnel are acquired in one global order (no held-while-acquiring cycle)", 1)
 	r.Rule("R07.14", "no function re-locks a mutex it already holds (queues, call mutex, user table)", 3)
 	r.Rule("R07.13", "ack/payload fields of an answer that can carry an error reach the queues only where its Err is nil", 1)
@@ -58,6 +59,7 @@ func checkC07(w *World, r *Report) {
 	c07Stride(w, r)
 	c07Bookkeeping(w, r)
 	c07ErrGuardedFields(w, r)
+	ruleLocksetConsistent(w, r, "R07.16", func(p string) bool { return strings.HasPrefix(p, modPath+"/internal/streams/dns") }, "a Read overlapping an Append sees a torn buffer: bytes are delivered twice or an acknowledged packet is lost")
 	ruleLockOrder(w, r, "R07.15", func(p string) bool { return strings.HasPrefix(p, modPath+"/internal/streams/dns") })
 	ruleNoReentrantLock(w, r, "R07.14", func(p string) bool { return strings.HasPrefix(p, modPath+"/internal/streams/dns") })
 }
